@@ -24,6 +24,7 @@ type retrySpec struct {
 	Script   []string `json:"script"` // outcome of the k-th attempt of the FIRST fire: ok | fail | panic ; afterwards ok
 	MaxR     int      `json:"maxr"`
 	Interval int      `json:"interval_ms"`
+	DurMs    int      `json:"dur_ms"` // every attempt of a failing outcome takes this long
 }
 
 type retryBatch struct {
@@ -45,6 +46,7 @@ type retryObs struct {
 	Cancel    string       `json:"cancel"`
 	Spec      retrySpec    `json:"spec"`
 	Attempts  []attemptRec `json:"attempts"`  // of the first fire
+	Attempts2 []attemptRec `json:"attempts2"` // of the second fire (same script again)
 	LaterFire int64        `json:"later_fires"` // executions belonging to later fire times
 	Sibling   int64        `json:"sibling_after"`
 	WaitOK    bool         `json:"wait_returned"`
@@ -59,7 +61,9 @@ type scripted struct {
 	base     time.Time
 	mu       sync.Mutex
 	first    []attemptRec
+	second   []attemptRec
 	k        int // attempts of the first fire so far
+	k2       int
 	later    atomic.Int64
 	onAttempt func(k int, ctx context.Context) // hook for cancellation scenarios (called inside attempt k of the first fire)
 	fireOf   func() int
@@ -67,25 +71,38 @@ type scripted struct {
 
 func (j *scripted) Description() string { return j.spec.Name }
 func (j *scripted) Execute(ctx context.Context) error {
-	if j.fireOf() > 1 {
+	fire := j.fireOf()
+	if fire > 2 {
 		j.later.Add(1)
 		return nil
 	}
 	j.mu.Lock()
-	k := j.k
-	j.k++
+	recs, k := &j.first, j.k
+	if fire == 2 {
+		// the second fire time replays the same script: the retry budget is per execution
+		recs, k = &j.second, j.k2
+		j.k2++
+		if k == 0 {
+			j.later.Add(1)
+		}
+	} else {
+		j.k++
+	}
 	st := int64(time.Since(j.base) / time.Microsecond)
-	j.first = append(j.first, attemptRec{Start: st, End: -1})
+	*recs = append(*recs, attemptRec{Start: st, End: -1})
 	j.mu.Unlock()
 	out := "ok"
 	if k < len(j.spec.Script) {
 		out = j.spec.Script[k]
 	}
-	if j.onAttempt != nil {
+	if j.onAttempt != nil && fire <= 1 {
 		j.onAttempt(k, ctx)
 	}
+	if out != "ok" && j.spec.DurMs > 0 {
+		time.Sleep(time.Duration(j.spec.DurMs) * time.Millisecond)
+	}
 	j.mu.Lock()
-	j.first[k].End = int64(time.Since(j.base) / time.Microsecond)
+	(*recs)[k].End = int64(time.Since(j.base) / time.Microsecond)
 	j.mu.Unlock()
 	switch out {
 	case "fail":
@@ -169,6 +186,8 @@ func runRetryBatch(b retryBatch) []retryObs {
 			}
 			return true
 		})
+		// let the second fire's retry sequence finish
+		time.Sleep(time.Duration(8*(maxInterval(b.Specs)+maxDur(b.Specs))+80) * time.Millisecond)
 		s0 := sib.Load()
 		pollUntil(3*time.Second, func() bool { return sib.Load() >= s0+3 })
 		for i := range out {
@@ -186,11 +205,22 @@ func runRetryBatch(b retryBatch) []retryObs {
 		j.mu.Lock()
 		out[i].Kind, out[i].Via, out[i].Mode, out[i].Cancel, out[i].Spec = "retry", "scheduler", b.Mode, b.Cancel, j.spec
 		out[i].Attempts = append([]attemptRec{}, j.first...)
+		out[i].Attempts2 = append([]attemptRec{}, j.second...)
 		out[i].LaterFire = j.later.Load()
 		out[i].WaitOK = waitOK
 		j.mu.Unlock()
 	}
 	return out
+}
+
+func maxDur(sp []retrySpec) int {
+	m := 0
+	for _, s := range sp {
+		if s.DurMs > m {
+			m = s.DurMs
+		}
+	}
+	return m
 }
 
 func maxInterval(sp []retrySpec) int {
@@ -237,7 +267,11 @@ func specsFor(interval int, maxrs []int, tag string) []retrySpec {
 	var out []retrySpec
 	for si, sc := range scripts() {
 		for _, m := range maxrs {
-			out = append(out, retrySpec{Name: fmt.Sprintf("%s_s%d_m%d_i%d", tag, si, m, interval), Script: sc, MaxR: m, Interval: interval})
+			sp := retrySpec{Name: fmt.Sprintf("%s_s%d_m%d_i%d", tag, si, m, interval), Script: sc, MaxR: m, Interval: interval}
+			if interval == 1 && (si+m)%2 == 0 {
+				sp.DurMs = 4 // attempts that outlast the retry interval
+			}
+			out = append(out, sp)
 		}
 	}
 	return out
